@@ -1,0 +1,67 @@
+//go:build verif
+
+// Verification contracts for package idoc (comment-only; read by /verif/govc).
+// This file contains no executable code.
+// The ghosts n* count what ONE arbitrary iteration of the token loop appended; gEnd/gName/gVal/gPF describe the
+// element being closed in that iteration. "at loopstep#1" clauses are checked at the end of the iteration.
+
+package idoc
+
+//@ func ExplodeXML
+//@   merge_branches
+//@   ghost nSeg int = 0
+//@   ghost nItems int = 0
+//@   ghost nPartners int = 0
+//@   ghost nStatuses int = 0
+//@   ghost nDates int = 0
+//@   ghost nField int = 0
+//@   ghost gEnd bool = false
+//@   ghost gName string = ""
+//@   ghost gVal string = ""
+//@   ghost gPF map[string]string = nil
+//@   ghost gL0 int = 0
+//@   ghost gI0 int = 0
+//@   ghost gP0 int = 0
+//@   ghost gS0 int = 0
+//@   ghost gD0 int = 0
+//@   at Token#1 before set gL0 = len(result.Segments)
+//@   at Token#1 before set gI0 = len(result.Items)
+//@   at Token#1 before set gP0 = len(result.Partners)
+//@   at Token#1 before set gS0 = len(result.Statuses)
+//@   at Token#1 before set gD0 = len(result.Dates)
+//@   at append#1 before assert [C45.fields_iff_routed] (frame.Fields != nil) == (segmentSets.items[frame.Name] || segmentSets.partners[frame.Name] || segmentSets.statuses[frame.Name] || segmentSets.dates[frame.Name])
+//@   at TrimSpace#1 before set gEnd = true
+//@   at TrimSpace#1 before set gName = frame.Name
+//@   at TrimSpace#1 before set gPF = ite(len(segmentStack) > 0, segmentStack[len(segmentStack)-1].Fields, nil)
+//@   at TrimSpace#1 after set gVal = ret0
+//@   at mapupdate#1 before assert [C45.field_is_child_text] key == gName && value == gVal && gVal != "" && gPF != nil
+//@   at mapupdate#1 before set nField = nField + 1
+//@   at append#2 before assert [C45.segment_is_closing_element] gEnd && nSeg == 0 && seg.Name == gName && seg.Value == gVal && seg.Fields == frame.Fields && seg.Path == frame.Path
+//@   at append#2 before set nSeg = nSeg + 1
+//@   at append#3 before assert [C45.items_only_configured] segmentSets.items[seg.Name] && nItems == 0
+//@   at append#3 before set nItems = nItems + 1
+//@   at append#4 before assert [C45.partners_only_configured] segmentSets.partners[seg.Name] && nPartners == 0
+//@   at append#4 before set nPartners = nPartners + 1
+//@   at append#5 before assert [C45.statuses_only_configured] segmentSets.statuses[seg.Name] && nStatuses == 0
+//@   at append#5 before set nStatuses = nStatuses + 1
+//@   at append#6 before assert [C45.dates_only_configured] segmentSets.dates[seg.Name] && nDates == 0
+//@   at append#6 before set nDates = nDates + 1
+//@   at loopstep#1 assert [C45.one_segment_per_closed_element] gEnd ==> nSeg == 1
+//@   at loopstep#1 assert [C45.no_segment_otherwise] !gEnd ==> nSeg == 0 && nItems == 0 && nPartners == 0 && nStatuses == 0 && nDates == 0 && nField == 0
+//@   at loopstep#1 assert [C45.items_complete] gEnd && segmentSets.items[gName] ==> nItems == 1
+//@   at loopstep#1 assert [C45.partners_complete] gEnd && segmentSets.partners[gName] ==> nPartners == 1
+//@   at loopstep#1 assert [C45.statuses_complete] gEnd && segmentSets.statuses[gName] ==> nStatuses == 1
+//@   at loopstep#1 assert [C45.dates_complete] gEnd && segmentSets.dates[gName] ==> nDates == 1
+//@   at loopstep#1 assert [C45.child_text_recorded] gEnd && gVal != "" && gPF != nil ==> nField == 1
+//@   at loopstep#1 assert [C45.segments_in_close_order] len(result.Segments) == gL0 + nSeg && (nSeg == 1 ==> result.Segments[gL0].Name == gName && result.Segments[gL0].Value == gVal)
+//@   at loopstep#1 assert [C45.items_in_close_order] len(result.Items) == gI0 + nItems && (nItems == 1 ==> result.Items[gI0] == result.Segments[gL0])
+//@   at loopstep#1 assert [C45.partners_in_close_order] len(result.Partners) == gP0 + nPartners && (nPartners == 1 ==> result.Partners[gP0] == result.Segments[gL0])
+//@   at loopstep#1 assert [C45.statuses_in_close_order] len(result.Statuses) == gS0 + nStatuses && (nStatuses == 1 ==> result.Statuses[gS0] == result.Segments[gL0])
+//@   at loopstep#1 assert [C45.dates_in_close_order] len(result.Dates) == gD0 + nDates && (nDates == 1 ==> result.Dates[gD0] == result.Segments[gL0])
+//@   loop 1 invariant true
+
+//@ func attrsToMap
+//@   loop 1 invariant -1 <= rangeindex && rangeindex < len(attrs)
+
+//@ func buildPath
+//@   loop 1 invariant -1 <= rangeindex && rangeindex < len(stack)
